@@ -25,6 +25,7 @@ ASSUMPTIONS = ['neurodsp.burst.detect_bursts_dual_threshold is the trusted sampl
                'effective minimum = burst options value, else thresholds value, else 3 (as the property states)']
 
 ROUTE_VALS = (None, 1, 2, 4)
+ROUTE_VALS_T = (None, 0, 1, 2, 4)
 FULL = False      # thorough tier: full product of routes x durations x thresholds
 AMP_THRESHES = [(1, 2), (.5, 1.), (.25, .5)]
 
@@ -44,9 +45,12 @@ def evaluate(case):
     sc = sample_cols(centre)
     nev, nt, outs = 0, False, []
     plan = []
-    for i, (tm, bm) in enumerate(itertools.product(ROUTE_VALS, ROUTE_VALS)):
+    RV = ROUTE_VALS_T if FULL else ROUTE_VALS
+    if not FULL:
+        plan += [(0, None, None, (.5,)), (None, 0, None, (1,)), (2, 0, None, (.5,))]      # minimum 0 (documented lower bound)
+    for i, (tm, bm) in enumerate(itertools.product(RV, RV)):
         plan.append((tm, bm, None, (.5, 1) if FULL else ((.5, 1)[(i + i // 4) % 2],)))
-    for tm, bm in (itertools.product(ROUTE_VALS, ROUTE_VALS) if FULL else [(None, None), (1, None), (None, 2), (4, 1)]):
+    for tm, bm in (itertools.product(RV, RV) if FULL else [(None, None), (1, None), (None, 2), (4, 1)]):
         plan.append((tm, bm, .2, (.5, 1) if FULL else (.5,)))
     for tm, bm in ([(None, None), (1, None), (None, 2), (4, 1)] if FULL else [(None, None)]):
         plan.append((tm, bm, 0, (.5,)))          # a minimum duration of exactly 0 (documented) keeps every period
